@@ -6,7 +6,7 @@ from vlib.core import guard
 from emmet import expand
 
 PROP_ID = 'C03'
-RULE = ("case = (1–3 elements each with 0–6 attribute mentions, config). (a) exhaustive: every sequence of ≤ 3 (4 thorough) mentions over "
+RULE = ("case = (1–3 elements each with 0–6 attribute mentions, some of them or an enclosing group repeated ×2–3, config). (a) exhaustive: every sequence of ≤ 3 (4 thorough) mentions over "
         "{.a .b #i #j [t=1] [t=\"2 x\"] [t] [class=c] [d.] [!t] [!t=3] [disabled] [!h.]} × reverseAttributes on/off × 3 option sets; (b) Hypothesis: mentions "
         "drawn with replacement from a 6-name pool (class id disabled for t title) in every written form (shorthand, valueless, unquoted, double/single "
         "quoted incl. empty and with brackets/other quote/blanks, {expression}, `name.`, `!name`, `!name.`, `!name=v`), joined in one bracket set or separate, "
@@ -93,7 +93,7 @@ def shard_exhaustive(ctx, shard, nshards, maxlen):
                 ctx.rec.run_case(CHECKS, 'attrs-x', {'script': [{'n': ['p'], 'm': ms, 'x': None, 'r': None, 'sc': (k % 7 == 0)}], 'cfg': {'syntax': 'html', 'options': opts}})
 
 
-P_ATTR = G.P(names=['p', 'div', 'x1', 'span', 'ul', 'x-y'], nameless=0.15, mentions='full', text=0.1, text_only=0.0, groups=0.0, max_items=3, rep=0.0, sc=0.15)
+P_ATTR = G.P(names=['p', 'div', 'x1', 'span', 'ul', 'x-y'], nameless=0.15, mentions='full', text=0.1, text_only=0.0, groups=0.15, max_depth=2, max_items=3, rep=0.2, rep_max=3, sc=0.15)
 
 
 def config_strategy():
